@@ -324,6 +324,11 @@ def make_device(w, sc):
                 if dev.open:
                     dev.out += (b'G00!' if is_bytes else b'junk\n')
                     s.log(ev='unsolicited', gid=0)
+            elif kind == 'garbage_with':       # the reply and unsolicited junk in ONE segment (one recv() chunk)
+                if dev.open:
+                    dev.out += rep + (b'G00!' if is_bytes else b'junk' + eol)
+                s.log(ev='dev_send', gid=gid)
+                s.log(ev='unsolicited', gid=0)
             elif kind in ('silent', 'noreply'):      # noreply: a command the device legitimately does not answer
                 pass
             elif kind == 'trickle':      # a byte every half second, never a complete frame
